@@ -642,10 +642,11 @@ func (ci *crdIpam) toFloatingIPInfo(fip *FloatingIP) *FloatingIPInfo {
 // walkIPRanges walks all ips in the ranges, and calls f for each ip. If f returns true, walkIPRanges stops.
 func walkIPRanges(ranges []nets.IPRange, f func(ip net.IP) bool) {
 	for _, r := range ranges {
-		first := nets.IPToInt(r.First)
-		last := nets.IPToInt(r.Last)
+		// walk in uint64, a uint32 counter wraps around and never terminates if the range ends at 255.255.255.255
+		first := uint64(nets.IPToInt(r.First))
+		last := uint64(nets.IPToInt(r.Last))
 		for ; first <= last; first++ {
-			ip := nets.IntToIP(first)
+			ip := nets.IntToIP(uint32(first))
 			if f(ip) {
 				return
 			}
